@@ -636,8 +636,21 @@ def service_stage(c, judge):
   for algo in BOOL_ALGOS:
     for i in range(1 if quick else 4):
       space = bool_space(c.rng)
-      out = run_study(c, judge, algo, space, 3 if quick else 6, [1], infeasible_rate=0.0)     # batches are refused by these designers
+      # 13 rounds: these designers answer from a random designer for their first 10 trials; the model
+      # phase (the algorithm proper) only starts after that
+      out = run_study(c, judge, algo, space, 13 if (i == 0) else 6, [1], infeasible_rate=0.0)     # batches are refused by these designers
       record(algo, out, space)
+    # a boolean restricted to ONE value, and a two-valued categorical that is not a boolean: the model
+    # phase only knows 'True' / 'False' - such spaces must be refused or answered inside the domain
+    for variant in ('singleton-bool', 'two-valued-categorical'):
+      space = bool_space(c.rng)[:2]
+      if variant == 'singleton-bool':
+        space.append({'name': 'only', 't': 'C', 'cats': [c.rng.choice(['True', 'False'])], 'sc': None, 'bool': True})
+      else:
+        space.append({'name': 'act', 't': 'C', 'cats': ['relu', 'tanh'], 'sc': None})
+      out = run_study(c, judge, algo, space, 13, [1], infeasible_rate=0.0, note=':' + variant)
+      record(algo, out, space)
+      c.count(1, ('bool-variant', algo, variant), kind='malformed:' + variant)
       out = run_study(c, judge, algo, space, 2, [1, 3], note=':batch')                       # seed, then a batch: refused
       record(algo, out, space)
   # malformed stream: spaces an algorithm does not document must be refused, not answered
